@@ -45,7 +45,7 @@ ENGINES = {
 }
 
 PROPS = {
-    'C20': dict(engine='e8', n=dict(quick=6000, thorough=150000), shards=4,
+    'C20': dict(engine='e8', n=dict(quick=20000, thorough=400000), shards=4,
                 manifest=dict(
                     level_text='Coq theorems (coq/Props/C20.v) over executable models of ApplyLibrdkafkaConf + confluent SetKey, the four '
                                'buildConfigMap default tables, KafkaConsumer.checkConfig and the Nodeconfig getters, with strconv.Atoi/Itoa/ParseBool '
@@ -55,7 +55,7 @@ PROPS = {
                                'conditions of the statement hold (Atoi/ParseBool exact, incl. int64 range); Int/String getters return value-or-default '
                                'iff it parses and is within bounds (Atoi(Itoa d) = d proved), Float getter proved over an abstract ParseFloat result '
                                'with NaN rejected; all mutations of the map stated. Model tied to the code on every run by a correspondence check '
-                               '(real code through verif wrappers and public getters vs extracted model, 6000 boundary-biased cases).',
+                               '(real code through verif wrappers and public getters vs extracted model, 20000 boundary-biased cases).',
                     level_note='Proved: everything about the models, all quantifiers unbounded, no axioms. Tied by the differential run only '
                                '(generator-bounded: maps <= 12 entries, strings <= 35 bytes): that the models are the Go code, including the '
                                'transcribed default tables and the strconv models. Partial: float text parsing/formatting is strconv\'s (oracle + '
